@@ -82,11 +82,17 @@ impl Bucket {
 
         // See if any lower priority nodes are present in the table, we cant do
         // nodes that have equal status because we have to prefer longer lasting
-        // nodes in the case of a good status which helps with stability.
+        // nodes in the case of a good status which helps with stability. Among those pick the one
+        // with the lowest status so that a free (bad) slot is always used before a live
+        // (questionable) node is evicted.
         let replace_index = self
             .nodes
             .iter()
-            .position(|node| node.status() < new_node_status);
+            .map(|node| node.status())
+            .enumerate()
+            .filter(|(_, status)| *status < new_node_status)
+            .min_by_key(|(_, status)| *status)
+            .map(|(index, _)| index);
         if let Some(index) = replace_index {
             self.nodes[index] = new_node;
 
